@@ -1,8 +1,10 @@
 """Per-property job lists for bin/check (quick / thorough), bounds, assumptions."""
 
 
-def J(harness, label="", covers=None, cfg=None, **params):
+def J(harness, label="", covers=None, cfg=None, noassert=False, **params):
     d = {"harness": harness, "params": params, "label": label or ",".join("%s=%s" % kv for kv in sorted(params.items()))}
+    if noassert:
+        d["no_assert_ok"] = True  # the property is "no panic": every library panic is a violation by itself
     if covers:
         d["covers"] = covers
     if cfg:
@@ -74,4 +76,36 @@ PROPS["C15"] = {
     "assumptions": ["MD5/SHA*/HMAC are uninterpreted functions of their input bytes (per input length)", "net.IPv4(...).String() is the dotted decimal of the four bytes (vh/vstub.IPString)", "fmt.Errorf/Sprintf text is compared structurally (format string + argument bytes)"],
     "level_text": "Differential bounded symbolic model checking: the library routine and the standard-library routine are both executed symbolically from their SSA on the same symbolic input, and the solver decides equality of value / error-ness / error text on every pair of paths, for all inputs within the bounds (including the 64-bit overflow boundary of ParseUint and all 2^32 IPv4 values).",
     "level_note": "Trusted: go/ssa, gosym (witness-validated each run), z3; digests are uninterpreted functions so only the plumbing (hex case, string/[]byte equivalence, stream = one-shot, input unmodified) is decided.",
+}
+
+# ------------------------------------------------------------------------------------------- C17
+c17 = "vh/c17."
+PROPS["C17"] = {
+    "patterns": ["./c17"],
+    "level": "model_checking",
+    "quick": (
+        [J(c17 + "SubValid", k=k) for k in (0, 1, 2)]
+        + [J(c17 + "MaskValid", k=k) for k in (0, 1, 2)]
+        + [J(c17 + "DisplayValid", k=k) for k in (0, 1, 2, 3)]
+        + [J(c17 + "RevLenRemove", k=k) for k in (0, 1, 2)]
+        + [J(c17 + "Arbitrary", noassert=True, n=n) for n in (0, 1, 2, 3, 4)]
+        + [J(c17 + "Arbitrary", noassert=True, n=5, case=3), J(c17 + "Arbitrary", noassert=True, n=6, case=3)]
+        + [J(c17 + "Snake", n=n) for n in (1, 2, 3, 4, 5, 6)]
+    ),
+    "thorough": (
+        [J(c17 + "SubValid", k=k) for k in (0, 1, 2, 3)]
+        + [J(c17 + "MaskValid", k=k) for k in (0, 1, 2, 3)]
+        + [J(c17 + "DisplayValid", k=k) for k in (0, 1, 2, 3, 4)]
+        + [J(c17 + "RevLenRemove", k=k) for k in (0, 1, 2, 3)]
+        + [J(c17 + "Arbitrary", noassert=True, n=n) for n in (0, 1, 2, 3, 4, 5)]
+        + [J(c17 + "Arbitrary", noassert=True, n=6, case=c) for c in (0, 3, 4)]
+        + [J(c17 + "Arbitrary", noassert=True, n=7, case=3)]
+        + [J(c17 + "Snake", n=n) for n in range(1, 9)]
+    ),
+    "bounds": {"quick": "valid strings: every string of <= 2 arbitrary Unicode scalar values (<= 3 for SubByDisplay), every non-negative 64-bit start/length/end/limit (length also -1), one- and two-rune masks, arbitrary removal predicate (uninterpreted); arbitrary byte strings <= 4 bytes for every function (<= 6 for SubByDisplay) with arbitrary non-negative arguments; snake identifiers <= 6 bytes",
+               "thorough": "valid strings <= 3 scalar values (<= 4 for SubByDisplay); arbitrary bytes <= 5 (<= 7 SubByDisplay, <= 6 Sub/Rev); snake identifiers <= 8 bytes"},
+    "outside": ["longer strings", "negative arguments (not in the property)", "snake_case identifiers with digits or upper-case letters"],
+    "assumptions": ["lower-case snake_case identifier = [a-z] segments separated by single underscores, no leading/trailing underscore"],
+    "level_text": "Bounded symbolic model checking of the real strz helpers against rune-slice definitions: all scalar values of every UTF-8 width per rune and all 64-bit non-negative arguments are covered symbolically on each path; arbitrary (invalid) byte strings are checked for absence of panics.",
+    "level_note": "Trusted: go/ssa, gosym (witness-validated each run), z3. unicode/utf8 is executed from its own SSA, not modelled.",
 }
